@@ -257,7 +257,12 @@ func (e *Exec) doStreamAN(ctx context.Context, st Step) error {
 				f.mu.Unlock()
 				faulters.Delete(s.actor)
 				if fired && serr == nil {
-					// the interaction was hit: the stream must end with an error; give it the time
+					// the interaction was hit: the stream must end with an error; give it the time.
+					// (A sender fetch that is parked at its BEGIN would keep the streamer from shutting
+					// down: let it go - the streamer's context is cancelled by the reader's failure,
+					// so it cannot take effect any more.)
+					time.Sleep(30 * time.Millisecond)
+					s.h.set(false)
 					select {
 					case serr = <-s.errc:
 						s.errc <- serr
